@@ -152,7 +152,39 @@ PROPS = {
                 "{32,1,31,7,16,33,64} bytes (cycled); optional fault (error, EOF, or bytes+error) either strictly before the first usable "
                 "block is complete (must panic) or >= 64 bytes after it (must succeed). Oracle: first complete block with v mod n != 0, "
                 "reduced. Non-trivial = more than one block, a fault, or a first block >= n. Distinct by case hash.",
-        "units": [unit("props", "^TestC18", tier(80000, 1, 600), tier(4000000, 1, 3400))],
+        "units": [unit("props", "^TestC18", tier(80000, 4, 600), tier(4000000, 16, 3400))],
         "checks_expected": ["C18/random"],
+    },
+    "C16": {
+        "rule": "cases: a shared environment (2 elements from point specs, 2 scalars, msg and DST slices with interior offset / spare "
+                "capacity, shared encodings) and 2..10 call descriptors over it drawn from 24 API functions (hashing, element and scalar "
+                "methods taking the shared values as arguments, decoders of shared encodings, constructors, Order, Random), executed by "
+                "2..8 goroutines released together, each in its own generated permutation, on private receivers. Oracles: the Go race "
+                "detector (happens-before; exit code 66 on any race), per-goroutine results equal to the sequential results, shared "
+                "arguments unchanged. Non-trivial = at least two goroutines and one call. Distinct by case hash.",
+        "units": [unit("race", "^TestC16", tier(1200, 8, 900), tier(60000, 16, 3400), race=True)],
+        "checks_expected": ["C16/concurrent"],
+        "assumptions": ["race detection is happens-before based: it reports conflicting accesses that execute, it does not enumerate interleavings"],
+    },
+    "C17": {
+        "rule": "generated main packages: blank-import subset (0..4 packages) of a pool of 15 standard packages (fmt, os, strings, "
+                "encoding/hex, math/big, crypto/rand, crypto/sha512, crypto/md5, hash/fnv, encoding/json, sort, time, crypto/sha256, "
+                "crypto/tls, net/http) x function in {HashToGroup, EncodeToGroup, HashToScalar} x (msg, DST); the empty subset is a fixed "
+                "case for each function. Each program is built with plain `go build` against the tree under test and executed; oracle: "
+                "exit status 0 and printed hex equals the model value. Non-trivial = the other imports do not link crypto/sha256 "
+                "(decided with `go list -deps`). Distinct by case hash.",
+        "units": [unit("prog", "^TestC17", tier(12, 4, 900), tier(96, 16, 3400))],
+        "checks_expected": ["C17/programs"],
+        "assumptions": ["'programs' is narrowed to import sets of standard-library packages under one toolchain/GOOS"],
+    },
+    "C19": {
+        "rule": "cases (point spec, scalar k != 1): k single-bit, random of random bit length (leading-zero runs of every length), low "
+                "Hamming weight, dense (n-1 minus a sparse value), boundary-biased; 0, 2, 3, n-1, 2^255, 2^128, 2^200-1, n/2 as fixed "
+                "cases on G, a Z != 1 point and the identity. Oracle (metamorphic): the sequence of function entries in internal/field "
+                "and internal/scalar recorded during Multiply(k) equals, in length and order, the sequence recorded during Multiply(0) on "
+                "a copy of the same point (about 78 900 entries). Non-trivial = k != 0. Distinct by case hash.",
+        "units": [unit("trace", "^TestC19", tier(2400, 8, 900), tier(120000, 16, 3400), overlay="trace")],
+        "checks_expected": ["C19/schedule"],
+        "assumptions": ["granularity is function entry in internal/*: data-dependent branches inside one function, memory access patterns and real timing are not observed"],
     },
 }
